@@ -36,10 +36,13 @@ CLAIMED = {
 CLAIMED["C01"] = dict(
     level="exploration",
     text="Seeded search over schedules and configurations of whole TaskBasedIonizationSimulation runs executed "
-         "inside the simulator (fibers instead of OpenMP threads, every AtomicValue operation a scheduling point). "
+         "inside the simulator (fibers instead of OpenMP threads, every AtomicValue operation and - in 60% of "
+         "the runs - every packet and task event a scheduling point), and of the radiation step of whole "
+         "TaskBasedRadiationHydrodynamicsSimulation runs. "
          "Every packet carries an identity; an online ledger checks launched == requested == terminated exactly "
          "once with a legal cause, the code's own counter, task/packet ownership, bounded liveness (no progress "
-         "event for the step budget, second half under a fair policy) and that no buffer, task, queue entry or "
+         "event for the step budget, second half under a fair policy), that source buffers are filled by one "
+         "task at a time and within capacity, and that no buffer, task, queue entry or "
          "outgoing buffer survives an iteration. Sampling: evidence, not proof.",
     note="pool/queue capacities generated above any possible need (the property's premise); sequential "
          "consistency at AtomicValue granularity; runs that still make progress after the total point cap "
@@ -231,7 +234,7 @@ def main():
              "kind_free_text": "TimeLine driven by request histories with save/restore faults"},
             {"name": "E-FS", "path": "engines/efs.cpp", "serves_properties": ["C14"],
              "kind_free_text": "restart dump rotation in forked children with process death at numbered file-system operations"},
-            {"name": "E-RHD", "path": "engines/erhd.cpp", "serves_properties": ["C04", "C07", "C09", "C10", "C12"],
+            {"name": "E-RHD", "path": "engines/erhd.cpp", "serves_properties": ["C01", "C04", "C07", "C09", "C10", "C12"],
              "kind_free_text": "whole TaskBasedRadiationHydrodynamicsSimulation::do_simulation runs inside the simulator"},
             {"name": "E-RNG", "path": "engines/erng.cpp", "serves_properties": ["C13"],
              "kind_free_text": "RandomGenerator under draw/save/restore/reseed histories against GSL ranlxd2"},
